@@ -92,6 +92,13 @@ class SpecEval:
                     if node.attr in R.class_fields(sc) and sc not in cands:
                         cands.append(sc)
             if not cands:
+                # a pure getter under contract (its `value` expression is proved against the getter's body)
+                for c in cl:
+                    for sc in R.subclasses(c):
+                        key = self.eng.method_key(sc, node.attr)
+                        if key and R.CONTRACTS[key].value:
+                            sub = SpecEval(self.eng, self.st, self.pre, dict(self.extra, self=V(("ref", sc, False), o.t)))
+                            return sub.value(R.CONTRACTS[key].value)
                 raise Unsupported(f"spec: field {node.attr} of {show(o.s)}")
             owners = {R.field_owner(c, node.attr) for c in cands}
             if len(owners) == 1:
